@@ -12,7 +12,14 @@ META = dict(
           "'sites', lists cutting trees / on breakpoints / on sites), mode x polarised x span_normalise x "
           "centre/proportion/strict, and compares the real result with (1) the documented summary-function engine "
           "evaluated naively per tree/site, (2) first-principles tuple/pair/MRCA/genotype definitions, (3) window "
-          "refinement laws, (4) num_threads fan-out, concurrent Python threads and a ThreadSanitizer run. A case is "
+          "refinement laws, (4) num_threads fan-out, concurrent Python threads and a ThreadSanitizer run. Three audit "
+          "families (lib/props/c08_wide.py): 'forms' calls every method through other argument forms (tuples, numpy "
+          "arrays of several dtypes, 2-D arrays, Fortran / non-contiguous weights, positional arguments, documented "
+          "defaults left out, deprecated aliases, repeated calls); 'big' forces > 256 windows / index tuples / sample "
+          "sets / weight columns / output dimensions / time bins, >= 256 samples and children (star, broom, "
+          "caterpillar) and one-sample / site-less / edge-less inputs; 'coal' checks pair_coalescence_counts with time "
+          "windows starting exactly at the sample time, pair_coalescence_quantiles (exact rational cdf, strict on cdf "
+          "steps that are exact in binary64) and pair_coalescence_rates. A case is "
           "distinct by the sha1 of (family, row tuples) and non-trivial when the instance has an edge or a site."),
     REQUIRED=[
         "general:site", "general:branch", "general:node",
@@ -25,6 +32,9 @@ META = dict(
         "ld_matrix:r2", "ld_matrix:other-stats", "ldcalc:r2_matrix", "ldcalc:r2_array",
         "kc_distance:tree", "kc_distance:treeseq", "rf_distance", "negative-arguments",
         "refinement", "window-shortcuts",
+        "forms:named", "forms:general", "forms:afs", "forms:matrix", "forms:topo", "forms:weighted", "forms:trait",
+        "forms:alias", "forms:vector", "forms:repeat-call", "coal:quantiles", "coal:rates",
+        "rf_distance:multi-root-refused",
         "threads:num_threads", "threads:gnn", "threads:concurrent-runs",
         "tsan:runs",
     ],
